@@ -29,8 +29,15 @@ func genSegCase(t *rapid.T) *SegCase {
 	c := &SegCase{Keys: rapid.Bool().Draw(t, "keys"), Times: rapid.Bool().Draw(t, "times"), V1: uni(t, 4, "v1") == 3}
 	n := 1 + uni(t, 6, "n")
 	ts := int64(10)
+	// a single segment at base 0 carries no timestamp in from an older segment, so Check/Recover must
+	// handle any times, decreasing ones included (index timestamp = running maximum)
+	anyTimes := rapid.Bool().Draw(t, "any_times")
 	for i := 0; i < n; i++ {
-		ts += int64(pick(t, []int{0, 0, 1, 2}, "dt"))
+		if anyTimes {
+			ts = 1 + int64(uni(t, 30, "ts"))
+		} else {
+			ts += int64(pick(t, []int{0, 0, 1, 2}, "dt"))
+		}
 		kl := pick(t, []int{0, 0, 1, 3, 8, 20, 60}, "klen")
 		vl := pick(t, []int{0, 0, 1, 5, 17, 40, 60}, "vlen")
 		m := CodecMsg{Off: int64(i), TS: ts}
@@ -76,7 +83,9 @@ func runSegCase(c *SegCase, st *Stats) {
 		if _, err := l.Publish([]klevdb.Message{{Time: time.UnixMicro(m.TS), Key: m.K, Value: m.V}}); err != nil {
 			cfail("err", "publish: %v", err)
 		}
-		lastTS = m.TS
+		if m.TS > lastTS {
+			lastTS = m.TS
+		}
 	}
 	if err := l.Close(); err != nil {
 		cfail("err", "close: %v", err)
